@@ -176,6 +176,8 @@ var c04States = []M{
 	{"?t": "n2", "t": "n1"},
 	{"?<n": 5.0, "a": 1.0},
 	{"l": []interface{}{"a", "b", "c"}, "t": "n1"},
+	// what an earlier failed action left behind (under actionErrorBranches the machine goes on with it)
+	{"actionError": "earlier", "a": 1.0},
 }
 
 var c04Pendings = []interface{}{
